@@ -261,6 +261,8 @@ inline Sym operator/(const Sym & x, const Sym & y)
 {
   // only x/1 is simplified; constant quotients stay symbolic (exact in R)
   if (y.is_cst() && y.cval() == 1) return x;
+  // 0 / c for a non-zero constant c is (signed) zero in IEEE arithmetic and 0 in R
+  if (x.is_cst() && x.cval() == 0 && y.is_cst() && y.cval() != 0 && std::isfinite(y.cval())) return Sym(0);
   if (is_neg(x) && is_neg(y)) return neg_arg(x) / neg_arg(y);
   if (is_neg(x)) return -(neg_arg(x) / y);
   if (is_neg(y)) return -(x / neg_arg(y));
